@@ -67,6 +67,15 @@ func Family(o FamilyOpts) []*Model {
 			}
 		}
 	}
+	// twin-branch shapes (depth 2): two operator nodes under one relation that reach the SAME leaf, so
+	// that per-relation de-duplication of traversals is exercised
+	for _, l := range []func() *Expr{func() *Expr { return TTU("parent", "member") }, func() *Expr { return TTU("parent", "r1") }, func() *Expr { return Comp("r1") }} {
+		for _, inner := range []Kind{KDiff, KInter} {
+			for _, outer := range []Kind{KUnion, KInter} {
+				r0s = append(r0s, relChoice{Bin(outer, Bin(inner, l(), Comp("aux")), Bin(inner, l(), Comp("aux2"))), nil})
+			}
+		}
+	}
 	for i, l := range leafNoThis {
 		r0s = append(r0s, relChoice{l, nil})
 		for j, l2 := range leafNoThis {
@@ -151,9 +160,11 @@ func Family(o FamilyOpts) []*Model {
 				for _, pr := range popts {
 					m := &Model{Types: map[string]map[string]*RelDef{
 						"user":  {},
-						"group": {"member": {mb.e, mb.r}, "banned": {This(), []Restr{{Type: "user"}}}},
+						// group#r1 makes "r1 from parent" with parent: [doc, group] a tuple-to-userset whose
+						// computed relation exists on BOTH parent types, with different depths
+						"group": {"member": {mb.e, mb.r}, "banned": {This(), []Restr{{Type: "user"}}}, "r1": {This(), []Restr{{Type: "user"}}}},
 						"doc": {"parent": {This(), pr}, "r1": {r1.e, r1.r}, "r0": {r0.e, r0.r},
-							"aux": {This(), []Restr{{Type: "user"}}}},
+							"aux": {This(), []Restr{{Type: "user"}}}, "aux2": {This(), []Restr{{Type: "user"}}}},
 					}, Conds: o.Conds}
 					if _, strat := m.SccOrder(); !strat {
 						continue
@@ -173,7 +184,21 @@ func (m *Model) Signature() string {
 	for _, r := range d.Restr {
 		s += r.String() + ","
 	}
-	return s + "]"
+	s += "]"
+	// For the two plain "r1 from parent" shapes every (r1 definition, parent restriction) pair is its own
+	// class: a tuple-to-userset whose parents have different types and depths is a code path of its own.
+	if sh := d.Rewrite.String(); sh == "r1 from parent" || (sh == "(this or r1 from parent)" && len(d.Restr) == 1 && d.Restr[0] == (Restr{Type: "user"})) {
+		r1 := m.Types["doc"]["r1"]
+		s += "|r1=" + r1.Rewrite.String()
+		for _, r := range r1.Restr {
+			s += r.String() + ","
+		}
+		s += "|parent="
+		for _, r := range m.Types["doc"]["parent"].Restr {
+			s += r.String() + ","
+		}
+	}
+	return s
 }
 
 // Representatives picks perClass models of every signature class, deterministically (rotated by seed),
@@ -296,8 +321,8 @@ func Permissive() *Model {
 	all := []Restr{{Type: "user"}, {Type: "user", Wildcard: true}, {Type: "group"}, {Type: "doc"}, {Type: "group", Rel: "member"}, {Type: "doc", Rel: "r0"}, {Type: "doc", Rel: "r1"}}
 	return &Model{Types: map[string]map[string]*RelDef{
 		"user":  {},
-		"group": {"member": {This(), all}, "banned": {This(), all}},
-		"doc":   {"parent": {This(), all}, "r1": {This(), all}, "r0": {This(), all}, "aux": {This(), all}},
+		"group": {"member": {This(), all}, "banned": {This(), all}, "r1": {This(), all}},
+		"doc":   {"parent": {This(), all}, "r1": {This(), all}, "r0": {This(), all}, "aux": {This(), all}, "aux2": {This(), all}},
 	}}
 }
 
